@@ -237,7 +237,8 @@ fn child_main(file: &str) -> ! {
     std::process::exit(0);
 }
 
-fn child_timeout() -> u64 { std::env::var("C20_CHILD_TIMEOUT").ok().and_then(|s| s.parse().ok()).unwrap_or(40) }
+/// seconds before a child is killed (a corrupted TOC + footer sends `recover_toc` into its quadratic trailer scan)
+fn child_timeout() -> u64 { std::env::var("C20_CHILD_TIMEOUT").ok().and_then(|s| s.parse().ok()).unwrap_or(25) }
 
 /// run the child on `file`; None = the child died / hung (C22 territory)
 fn run_child(file: &Path) -> Result<BTreeMap<String, String>, String> {
@@ -911,15 +912,21 @@ fn run_all(cx: &Ctx, muts: &[Mutn], dir: &Path, jobs: usize, drv: &mut Driver, s
             results.lock().unwrap()[i] = Some(r);
         }));
     }
+    // evaluate (facts, model, oracle) in plan order while the children of later cases are still running
     let t0 = Instant::now();
+    let mut t_eval = 0.0f64;
+    for (i, m) in muts.iter().enumerate() {
+        let r = loop {
+            if let Some(r) = results.lock().unwrap()[i].take() { break r; }
+            std::thread::sleep(Duration::from_millis(5));
+        };
+        let t1 = Instant::now();
+        evaluate(cx, m, &r, drv, sum);
+        t_eval += t1.elapsed().as_secs_f64();
+    }
     for h in hs { let _ = h.join(); }
     let t_children = t0.elapsed().as_secs_f64();
-    let results = results.lock().unwrap();
-    let t1 = Instant::now();
-    for (i, m) in muts.iter().enumerate() {
-        evaluate(cx, m, results[i].as_ref().unwrap(), drv, sum);
-    }
-    sum.notes.push(format!("{} corrupted files: children {:.0} s wall ({jobs} jobs), facts + model + oracle {:.0} s", muts.len(), t_children, t1.elapsed().as_secs_f64()));
+    sum.notes.push(format!("{} corrupted files: {:.0} s wall ({jobs} child jobs), of which facts + model + oracle {:.0} s (overlapped)", muts.len(), t_children, t_eval));
 }
 
 fn main() {
